@@ -1,5 +1,6 @@
 import Orx.IW.Outs
 import Orx.IW.HB
+import Orx.IW.Weak
 import Orx.Generated.Orderings
 /-! # C07 Wrapped iterator is used exclusively and in order -/
 namespace Orx.Props.C07
@@ -63,5 +64,45 @@ theorem C07_relaxed_load_races :
     let h := hrun o s [0,0,0,0,0,0,0,0, 1,1,1,1,1] (hinit fun t => if t < 2 then [.single false] else [])
     (∃ acc, (h.core.th 1).pc = .cs (.single false) 1 acc) ∧ ¬ (h.last 0 ≤ h.clk 1 0) := by
   refine ⟨⟨[], by decide⟩, by decide⟩
+
+/-! ## Beyond SC interleavings: stale loads (`IW/Weak.lean`)
+
+`runS` lets the `Acquire` load of `yielded` return any older value and the `Relaxed` load of `completed` return a stale
+`false`, adversarially at every step (read-modify-writes and the all-`SeqCst` accesses of `completed` read the latest
+value, as C11 guarantees). -/
+
+/-- **Mutual exclusion under stale reads**: never two threads in the critical section, hence never two executions of
+the wrapped `next()` at once — for every iterator, program family, schedule and every choice of stale loads. -/
+theorem mutex_under_stale_reads (s : Script) (ps : Nat → List Req) (hok : ∀ t, ∀ r ∈ ps t, ReqOk r)
+    (σ : List (Nat × Stale)) (hW : (runS s σ (init ps)).R < W) (t u : Nat) (htu : t ≠ u) :
+    ¬ (((runS s σ (init ps)).th t).pc.inCS = true ∧ ((runS s σ (init ps)).th u).pc.inCS = true) :=
+  fun ⟨ht, hu⟩ => mutex_weak s ps hok σ hW t u htu ht hu
+
+/-- a stale value of `yielded` is never mistaken for the thread's turn: such a step is the fresh step or one more spin -/
+theorem stale_read_only_spins (s : Script) (ps : Nat → List Req) (hok : ∀ t, ∀ r ∈ ps t, ReqOk r)
+    (σ : List (Nat × Stale)) (hW : (runS s σ (init ps)).R < W) (t : Nat) (st : Stale) :
+    let c := runS s σ (init ps)
+    stepS s t st c = step s t c ∨
+    ∃ r b pc', ((c.th t).pc = .wait r b ∨ (c.th t).pc = .chk r b) ∧ (pc' = .wait r b ∨ pc' = .chk r b) ∧
+      stepS s t st c = setTh c t { (c.th t) with pc := pc' } :=
+  stepS_cases (inv_runS σ (inv_init s ps hok) hW) t st
+
+/-- **Happens-before under stale reads, with the orderings of the current source**: whoever enters or leaves the
+wrapped iterator's `next()` has the previous use in its past — the turn is only ever seen through the latest value of
+`yielded`, which was written by the previous holder's releasing `fetch_add`. -/
+theorem hb_chain_under_stale_reads (s : Script) (ps : Nat → List Req) (hok : ∀ t, ∀ r ∈ ps t, ReqOk r)
+    (σ : List (Nat × Stale)) (hW : (runS s σ (init ps)).R < W) (t : Nat)
+    (huse : ∃ r b acc, ((hrunS srcOrds s σ (hinit ps)).core.th t).pc = .cs r b acc ∨
+                       ((hrunS srcOrds s σ (hinit ps)).core.th t).pc = .ins r b acc) :
+    (hrunS srcOrds s σ (hinit ps)).last.le ((hrunS srcOrds s σ (hinit ps)).clk t) :=
+  no_race_weak srcOrds ord_current_acquire ord_faa_release.1 s ps hok σ hW t huse
+
+/-- non-vacuity: a schedule in which thread 1 reads the stale value 0 of `yielded` while thread 0 has already published
+(so `yielded = 1` is thread 1's turn): thread 1 just spins once more, then enters with the fresh value. -/
+example :
+    let s : Script := fun i => if i < 2 then .some (i + 7) else .none
+    let ps : Nat → List Req := fun t => if t < 2 then [.single false] else []
+    let c := runS s ([0,0,0,0,0,0,0,0, 1,1,1].map (·, Stale.fresh) ++ [(1, .yOld 0), (1, .cOld), (1, .fresh)]) (init ps)
+    c.Y = 1 ∧ (c.th 1).pc = .ent (.single false) 1 := by decide
 
 end Orx.Props.C07
